@@ -34,12 +34,43 @@ BIND_TABLE = {
 
 
 def lt_edges(cfg, want=True):
-    """edges of switches on `self.universe_index < ui`-like comparisons"""
-    def pred(tr):
-        if tr.get("kind") == "call" and callee_matches(tr["call"], ("PartialOrd::lt", "lt")):
-            return True
-        return tr.get("kind") == "bin" and tr["op"] == "Lt"
-    return cfg.bool_edges(pred, want)
+    """edges on which `self.universe_index < ui` is `want`, however the comparison is spelled: `a < b`, `PartialOrd::lt(a, b)`,
+    `!(a >= b)`, `b > a`, `!(b <= a)`, `!a.can_see(b)` (UniverseIndex::can_see(a, b) is `a >= b`).  The left operand is the occurs
+    check's own universe: a comparison whose operands are recognisably the other way round is a different test and is not counted."""
+    def own(tr):
+        return tr.get("kind") == "field" and any(str(f_).endswith("OccursCheck.universe_index") for f_ in tr.get("fields", []))
+
+    def operands(tr):
+        if tr.get("kind") == "bin":
+            return tr.get("a") or {}, tr.get("b") or {}
+        args = tr["call"].get("a") or []
+        ts = [cfg.trace(a_) for a_ in args[:2]]
+        while len(ts) < 2:
+            ts.append({})
+        return ts[0], ts[1]
+
+    def oriented(tr, swapped, strict=True):
+        a_, b_ = operands(tr)
+        if swapped:
+            a_, b_ = b_, a_
+        if strict:
+            # the other spellings are only taken for the test when the own universe is recognisably the left operand (the level
+            # test of a tracing macro is a `<=` too)
+            return own(a_) and not own(b_)
+        return not (own(b_) and not own(a_))
+
+    def is_op(tr, bins, fns):
+        if tr.get("kind") == "call":
+            return callee_matches(tr["call"], fns)
+        return tr.get("kind") == "bin" and tr["op"] in bins
+    out = []
+    # a < b            b > a
+    out += cfg.bool_edges(lambda tr: is_op(tr, ("Lt",), ("PartialOrd::lt", "lt")) and oriented(tr, False, strict=False), want)
+    out += cfg.bool_edges(lambda tr: is_op(tr, ("Gt",), ("PartialOrd::gt",)) and oriented(tr, True), want)
+    # !(a >= b)        !(b <= a)        !a.can_see(b)
+    out += cfg.bool_edges(lambda tr: is_op(tr, ("Ge",), ("PartialOrd::ge", "UniverseIndex::can_see")) and oriented(tr, False), not want)
+    out += cfg.bool_edges(lambda tr: is_op(tr, ("Le",), ("PartialOrd::le",)) and oriented(tr, True), not want)
+    return out
 
 
 def promotions(facts, b):
